@@ -7,7 +7,7 @@
    Only statements, closed by [exact]/glue, with Print Assumptions. *)
 From OrdV Require Import Base.Prelude Generated Ord.Rune Ord.Decimal Ord.SatParse Ord.TextParse
   Proofs.Rune_proofs Proofs.Spaced_proofs Proofs.Decimal_proofs Proofs.DecimalParse_proofs
-  Proofs.SatParse_proofs Proofs.TextParse_proofs.
+  Proofs.SatParse_proofs Proofs.TextParse_proofs Proofs.SpacedSound_proofs.
 
 (* Sat::from_str, all notations.  [fc] is the classification by Rust's own f64 parser of the
    text before a final '%' (f64 is trusted, not modelled): the theorem holds for every value
@@ -37,11 +37,18 @@ Theorem C31_rune : forall s,
   (forall n, parse s = Ok n -> n < P128 /\ show n = s).
 Proof. intro s. split; [intro t; apply parse_total|exact (show_parse s)]. Qed.
 
-(* SpacedRune::from_str *)
+(* SpacedRune::from_str: an accepted string, reading '.' as the bullet, is exactly the printed
+   form of the returned spaced rune (so no leading, doubled or trailing spacers, no spacer bit
+   at or above the last letter, and the letters are the rune's name). *)
 Theorem C31_spaced_rune : forall s,
   (forall t, spaced_parse s <> Panic t) /\
-  (forall n sp, spaced_parse s = Ok (n, sp) -> spaced_denotes s n sp /\ n < P128).
-Proof. intro s. split; [intro t; apply spaced_parse_total|exact (spaced_parse_sound s)]. Qed.
+  (forall n sp, spaced_parse s = Ok (n, sp) ->
+     n < P128 /\ sp < P32 /\ map norm s = spaced_show n sp /\ spaced_denotes s n sp).
+Proof.
+  intro s. split; [intro t; apply spaced_parse_total|].
+  intros n sp H. destruct (spaced_parse_display s n sp H) as (A & B & C).
+  destruct (spaced_parse_sound s n sp H) as [D _]. auto.
+Qed.
 
 (* RuneId::from_str *)
 Theorem C31_rune_id : forall s,
